@@ -409,51 +409,58 @@ package starlark
 // deep freezing of everything reachable follows by induction over those edges (DESIGN 5/C04).
 //@ func Value.Freeze
 //@   prop C04 C05
-//@   modifies List.frozen, hashtable.frozen, starlarkstruct.Struct.frozen, $mem:bool, $ghost:frz
+//@   modifies List.frozen, hashtable.frozen, Function.frozen, starlarkstruct.Struct.frozen, $mem:bool, $ghost:frz
 //@   ensures ghost: frz(self) && frzmono()
-//@   ensures flags_only_set: mono(List.frozen) && mono(hashtable.frozen) && mono(starlarkstruct.Struct.frozen)
+//@   ensures flags_only_set: mono(List.frozen) && mono(hashtable.frozen) && mono(Function.frozen) && mono(starlarkstruct.Struct.frozen)
 //@ func List.Freeze
 //@   prop C04 C05
 //@   requires l != nil
-//@   modifies List.frozen, hashtable.frozen, starlarkstruct.Struct.frozen, $mem:bool, $ghost:frz
+//@   modifies List.frozen, hashtable.frozen, Function.frozen, starlarkstruct.Struct.frozen, $mem:bool, $ghost:frz
 //@   invariant 1 rangeindex >= -1 && l.frozen && forall(k, 0, rangeindex + 1, frz(l.elems[k])) && frzmono() && mono(List.frozen) && mono(hashtable.frozen)
 //@   ensures ghost: frz(l)
 //@   ensures l.frozen && frzmono() && mono(List.frozen) && mono(hashtable.frozen)
 //@   ensures elems: !old(l.frozen) ==> forall(k, 0, len(l.elems), frz(l.elems[k]))
 //@ func Tuple.Freeze
 //@   prop C04 C05
-//@   modifies List.frozen, hashtable.frozen, starlarkstruct.Struct.frozen, $mem:bool, $ghost:frz
-//@   invariant 1 rangeindex >= -1 && forall(k, 0, rangeindex + 1, frz(t[k])) && frzmono() && mono(List.frozen) && mono(hashtable.frozen)
+//@   modifies List.frozen, hashtable.frozen, Function.frozen, starlarkstruct.Struct.frozen, $mem:bool, $ghost:frz
+//@   invariant 1 rangeindex >= -1 && forall(k, 0, rangeindex + 1, frz(t[k])) && frzmono() && mono(List.frozen) && mono(hashtable.frozen) && mono(Function.frozen)
 //@   ensures ghost: frz(t)
-//@   ensures elems: forall(k, 0, len(t), frz(t[k])) && frzmono() && mono(List.frozen) && mono(hashtable.frozen)
+//@   ensures elems: forall(k, 0, len(t), frz(t[k])) && frzmono() && mono(List.frozen) && mono(hashtable.frozen) && mono(Function.frozen)
 //@ func hashtable.freeze
 //@   prop C04 C05
 //@   requires ht != nil
-//@   modifies List.frozen, hashtable.frozen, starlarkstruct.Struct.frozen, $mem:bool, $ghost:frz
+//@   modifies List.frozen, hashtable.frozen, Function.frozen, starlarkstruct.Struct.frozen, $mem:bool, $ghost:frz
 //@   invariant 1 ht.frozen && mono(List.frozen) && mono(hashtable.frozen)
 //@   bodyensures 1 keys_and_values: frz(e.key) && frz(e.value)
 //@   ensures ht.frozen && mono(List.frozen) && mono(hashtable.frozen)
+// A function is marked before its defaults and cells are frozen: a nested function that refers
+// to itself (function -> cell -> function) would otherwise recurse until the Go stack is exhausted
+// (fixed defect, see known_findings.json)
+//@ protect [C05] Function.frozen : !owner.frozen
+//@ monotone [C04] Function.frozen : value == true
 //@ func Function.Freeze
-//@   prop C04 C05
+//@   prop C04 C05 C02
 //@   requires fn != nil
-//@   modifies List.frozen, hashtable.frozen, starlarkstruct.Struct.frozen, $mem:bool, $ghost:frz
+//@   modifies List.frozen, hashtable.frozen, Function.frozen, starlarkstruct.Struct.frozen, $mem:bool, $ghost:frz
+//@   assert /fn.defaults.Freeze\(\)/ [C02,C04] marked_before_descending: fn.frozen
 //@   ensures ghost: frz(fn)
-//@   ensures forall(k, 0, len(fn.defaults), frz(fn.defaults[k])) && forall(k, 0, len(fn.freevars), frz(fn.freevars[k]))
+//@   ensures marked: fn.frozen
+//@   ensures !old(fn.frozen) ==> forall(k, 0, len(fn.defaults), frz(fn.defaults[k])) && forall(k, 0, len(fn.freevars), frz(fn.freevars[k]))
 //@ func Builtin.Freeze
 //@   prop C04 C05
 //@   requires b != nil
-//@   modifies List.frozen, hashtable.frozen, starlarkstruct.Struct.frozen, $mem:bool, $ghost:frz
+//@   modifies List.frozen, hashtable.frozen, Function.frozen, starlarkstruct.Struct.frozen, $mem:bool, $ghost:frz
 //@   ensures ghost: frz(b)
 //@   ensures b.recv != nil ==> frz(b.recv)
 //@ func cell.Freeze
 //@   prop C04 C05
 //@   requires c != nil
-//@   modifies List.frozen, hashtable.frozen, starlarkstruct.Struct.frozen, $mem:bool, $ghost:frz
+//@   modifies List.frozen, hashtable.frozen, Function.frozen, starlarkstruct.Struct.frozen, $mem:bool, $ghost:frz
 //@   ensures ghost: frz(c)
 //@   ensures c.v != nil ==> frz(c.v)
 //@ func StringDict.Freeze
 //@   prop C04 C05
-//@   modifies List.frozen, hashtable.frozen, starlarkstruct.Struct.frozen, $mem:bool, $ghost:frz
+//@   modifies List.frozen, hashtable.frozen, Function.frozen, starlarkstruct.Struct.frozen, $mem:bool, $ghost:frz
 //@   ensures ghost: frz(d)
 // A finished module's globals are frozen whether initialisation succeeded or failed.
 //@ func ExecFileOptions
